@@ -254,10 +254,24 @@ fn cmd_replay_beh(a: &Args) {
 			.collect(),
 	};
 	let nbeh = for_each_tagged(a.req("in"), "BEH", threads, stride, max, |idx, v| {
-		let beh: Beh = match serde_json::from_value(v) {
+		let mut beh: Beh = match serde_json::from_value(v) {
 			Ok(b) => b,
 			Err(e) => panic!("bad BEH line {}: {}", idx, e),
 		};
+		// frame ids are arbitrary 32-bit integers where frames are explicit (2.2+): every 8th behaviour is shifted to
+		// the top of the range, every 16th to the bottom (the model's ids are relative)
+		if beh.reg != "A" && idx % 8 == 5 && !beh.fin.ids.is_empty() {
+			let (lo, hi) = (*beh.fin.ids.iter().min().unwrap() as i64, *beh.fin.ids.iter().max().unwrap() as i64);
+			let delta: i64 = if idx % 16 == 5 { i32::MAX as i64 - hi } else { i32::MIN as i64 - lo };
+			for e in beh.hist.iter_mut().chain(beh.emit.iter_mut()) {
+				if ["fs", "pre", "post", "item", "fe"].contains(&e.k.as_str()) {
+					e.id += delta;
+				}
+			}
+			for i in beh.fin.ids.iter_mut() {
+				*i = (*i as i64 + delta) as i32;
+			}
+		}
 		let nontrivial = !beh.fin.ids.is_empty();
 		for (vi, ver) in pick_versions(&db, &beh, idx, nver, seed).into_iter().enumerate() {
 			let mut o = GenOpts::new(seed ^ ((idx as u64) << 20) ^ vi as u64, ver);
